@@ -42,6 +42,12 @@ enum Source {
     Counts { counts: [u16; 4], #[serde(with = "crate::core::hexser")] body: Vec<u8> },
     /// a single name of total wire length around the limit, optionally finished through a pointer
     LongName { first_labels: Vec<u8>, via_pointer: bool, tail_labels: Vec<u8> },
+    /// an OPT pseudo-RR whose options carry arbitrary (mostly malformed-in-a-plausible-way) payloads
+    /// for the option codes hickory interprets
+    OptOptions { options: Vec<(u16, Vec<u8>)>, payload: u16, ttl: u32 },
+    /// a region of pointer slots forming an arbitrary graph (cycles, self loops, forward edges),
+    /// placed in the RDATA of a leading NULL record, then names pointing into it
+    PointerGraph { edges: Vec<u8>, entry: Vec<u8>, label_slots: u8 },
     /// one record whose RDLENGTH disagrees with its RDATA in a chosen way
     Rdlen { rtype: u16, #[serde(with = "crate::core::hexser")] rdata: Vec<u8>, declared: u16, trailing: u8 },
 }
@@ -208,6 +214,54 @@ fn materialise(src: &Source) -> (Vec<u8>, &'static str) {
                 out.extend_from_slice(&[0, 1, 0, 1]);
             }
             (out, "length-boundary-name")
+        }
+        Source::OptOptions { options, payload, ttl } => {
+            let mut out = vec![0u8; 12];
+            out[11] = 1;
+            out.push(0);
+            out.extend_from_slice(&[0, 41]);
+            out.extend_from_slice(&payload.to_be_bytes());
+            out.extend_from_slice(&ttl.to_be_bytes());
+            let mut rd = Vec::new();
+            for (c, d) in options {
+                rd.extend_from_slice(&c.to_be_bytes());
+                rd.extend_from_slice(&(d.len() as u16).to_be_bytes());
+                rd.extend_from_slice(d);
+            }
+            out.extend_from_slice(&(rd.len() as u16).to_be_bytes());
+            out.extend_from_slice(&rd);
+            (out, "opt-options")
+        }
+        Source::PointerGraph { edges, entry, label_slots } => {
+            let mut out = vec![0u8; 12];
+            out.push(0);
+            out.extend_from_slice(&[0, 10, 0, 1, 0, 0, 0, 0]);
+            let len_at = out.len();
+            out.extend_from_slice(&[0, 0]);
+            let region_at = out.len();
+            // slot i lives at region_at + 2*i; slots below `label_slots` hold "\x01a" (a label) instead
+            let n = edges.len().max(1);
+            for (i, e) in edges.iter().enumerate() {
+                if (i as u8) < *label_slots {
+                    out.extend_from_slice(&[0, 0]); // two root labels: a terminating slot
+                } else {
+                    let target = region_at + 2 * (*e as usize % n);
+                    out.extend_from_slice(&(0xC000u16 | target as u16).to_be_bytes());
+                }
+            }
+            let region_len = out.len() - region_at;
+            out[len_at..len_at + 2].copy_from_slice(&(region_len as u16).to_be_bytes());
+            let mut cnt = 0u16;
+            for e in entry {
+                let target = region_at + 2 * (*e as usize % n);
+                let p = (0xC000u16 | target as u16).to_be_bytes();
+                out.extend_from_slice(&p);
+                out.extend_from_slice(&[0, 2, 0, 1, 0, 0, 0, 0, 0, 2]);
+                out.extend_from_slice(&p);
+                cnt += 1;
+            }
+            out[6..8].copy_from_slice(&(1 + cnt).to_be_bytes());
+            (out, "pointer-graph")
         }
         Source::Rdlen { rtype, rdata, declared, trailing } => {
             let mut out = vec![0u8; 12];
@@ -400,6 +454,7 @@ fn body(c: &Case, rec: &mut Rec) -> CaseResult {
         _ => "len>8192",
     });
     let adversarial = !matches!(family, "valid" | "mutated" | "raw" | "random");
+    let _ = "opt-options and pointer-graph count as adversarial families";
     if (ok && names >= 1) || (!ok && bytes.len() > 12 && steps > 0) || adversarial {
         rec.nontrivial();
         if rec.wants_note() {
@@ -443,6 +498,24 @@ fn source(heavy: bool) -> BoxedStrategy<Source> {
         .prop_map(|(first_labels, via_pointer, tail_labels)| Source::LongName { first_labels, via_pointer, tail_labels });
     let rdlen = (prop::sample::select(RTYPES.to_vec()), vec(any::<u8>(), 0..40), prop_oneof![Just(0u16), 0u16..48, Just(65_535u16)], 0u8..4)
         .prop_map(|(rtype, rdata, declared, trailing)| Source::Rdlen { rtype, rdata, declared, trailing });
+    // EDNS options: codes hickory interprets (3 NSID, 5 DAU, 8 client subnet) with every kind of
+    // inconsistent payload (family / prefix / address-length mismatches), plus others
+    let ecs = (prop_oneof![3 => Just(1u16), 3 => Just(2u16), 1 => any::<u16>()], any::<u8>(), any::<u8>(), vec(any::<u8>(), 0..20)).prop_map(|(fam, sp, sc, addr)| {
+        let mut v = fam.to_be_bytes().to_vec();
+        v.push(sp);
+        v.push(sc);
+        v.extend(addr);
+        (8u16, v)
+    });
+    let opt_one = prop_oneof![
+        4 => ecs,
+        1 => vec(any::<u8>(), 0..6).prop_map(|v| (8u16, v)),
+        2 => vec(any::<u8>(), 0..40).prop_map(|v| (5u16, v)),
+        2 => vec(any::<u8>(), 0..40).prop_map(|v| (3u16, v)),
+        2 => (prop::sample::select(vec![1u16, 2, 4, 6, 7, 9, 10, 11, 12, 13, 14, 15, 16, 17, 65001]), vec(any::<u8>(), 0..40)).prop_map(|(c, v)| (c, v)),
+    ];
+    let opts = (vec(opt_one, 1..4), any::<u16>(), any::<u32>()).prop_map(|(options, payload, ttl)| Source::OptOptions { options, payload, ttl });
+    let graph = (vec(any::<u8>(), 1..8), vec(any::<u8>(), 1..4), 0u8..3).prop_map(|(edges, entry, label_slots)| Source::PointerGraph { edges, entry, label_slots });
     prop_oneof![
         8 => model,
         3 => raw,
@@ -452,6 +525,8 @@ fn source(heavy: bool) -> BoxedStrategy<Source> {
         1 => counts,
         2 => long,
         2 => rdlen,
+        3 => opts,
+        2 => graph,
     ]
     .boxed()
 }
